@@ -187,6 +187,18 @@ def _account(ctx, chunks):
                 worst[e["e"].lower()] = max(worst.get(e["e"].lower(), 0), e["err"])
     if nfit == 0:
         raise InfraError("c01 harness produced no Fit events")
+    # vacuity: every antecedent of the ledger must occur in the recording
+    fits = [e for ev in chunks for e in ev if e["e"] == "Fit"]
+    classes = dict(full_rank=sum(1 for e in fits if e["npc"] == e["rank"] and e["tail"] == 0), multi_component=sum(1 for e in fits if e["npc"] >= 2),
+                   wide=sum(1 for e in fits if e["shape"] == "wide"), tall=sum(1 for e in fits if e["shape"] == "tall"), square=sum(1 for e in fits if e["shape"] == "square"))
+    for sc in range(-1, 6):
+        classes["scaling_%d" % sc] = sum(1 for e in fits if e["scaling"] == sc)
+    for npr in (1, 2, 3, 16, 24):
+        classes["nproc_%d" % npr] = sum(1 for e in fits if e["nproc"] == npr)
+    ctx.steps["classes"] = classes
+    missing = [k for k, v in classes.items() if v == 0]
+    if missing:
+        raise InfraError("c01 recording does not exercise: %s (vacuous antecedents)" % missing)
     ctx.steps["worst_residuals_1e-12"] = worst
     ctx.steps["models"] = dict(fitted=nfit, dropped_outside_quantifier=ndrop)
     return nfit, ndrop
